@@ -27,12 +27,23 @@ type Facts struct {
 	Bytes  map[string][]int64  `json:"bytes"`  // byte/number lists
 	Tables map[string][][2]any `json:"tables"` // (code, name) tables
 	Bools  map[string]bool     `json:"bools"`
+	Strs   map[string][]string `json:"strs"`    // name lists
 	Miss   []string            `json:"missing"` // anchors not found
+	MissT  map[string]string   `json:"missing_types,omitempty"` // Lean type of a missing fact when not Nat
 }
 
-var facts = Facts{Nat: map[string]int64{}, Bytes: map[string][]int64{}, Tables: map[string][][2]any{}, Bools: map[string]bool{}}
+var facts = Facts{Nat: map[string]int64{}, Bytes: map[string][]int64{}, Tables: map[string][][2]any{}, Bools: map[string]bool{}, Strs: map[string][]string{}, MissT: map[string]string{}}
 
 func miss(name string) { facts.Miss = append(facts.Miss, name) }
+
+// missT records a missing anchor whose fact has Lean type `Option <typ>`.
+func missT(name, typ string) {
+	facts.Miss = append(facts.Miss, name)
+	facts.MissT[name] = typ
+}
+
+// extraExtractors are registered by init functions of the per-family files.
+var extraExtractors []func(pkgs map[string]*Pkg)
 
 type Pkg struct {
 	*packages.Package
@@ -262,7 +273,9 @@ func main() {
 	pkgs := load(repo, "./dhcpv4", "./dhcpv6", "./rfc1035label", "./iana", "./dhcpv4/nclient4", "./dhcpv6/nclient6", "./dhcpv4/server4", "./dhcpv6/server6")
 	extractV4(pkgs[mod+"/dhcpv4"])
 	extractMore(pkgs)
-	extractC16(pkgs)
+	for _, f := range extraExtractors {
+		f(pkgs)
+	}
 
 	js, _ := json.MarshalIndent(facts, "", " ")
 	if outJSON != "" {
@@ -340,11 +353,26 @@ func renderLean() string {
 	for _, k := range keys {
 		fmt.Fprintf(&b, "def %s : Option Bool := some %v\n", k, facts.Bools[k])
 	}
+	keys = keys[:0]
+	for k := range facts.Strs {
+		keys = append(keys, k)
+	}
+	sort.Strings(keys)
+	for _, k := range keys {
+		parts := make([]string, len(facts.Strs[k]))
+		for i, v := range facts.Strs[k] {
+			parts[i] = fmt.Sprintf("%q", v)
+		}
+		fmt.Fprintf(&b, "def %s : Option (List String) := some [%s]\n", k, strings.Join(parts, ", "))
+	}
 	sort.Strings(facts.Miss)
 	for _, k := range facts.Miss {
 		// An anchor the extractor could not find: the obligation that uses it
 		// fails to check (it is `none`), which is a broken tie, not silence.
 		typ := "Nat"
+		if t, ok := facts.MissT[k]; ok {
+			typ = t
+		}
 		fmt.Fprintf(&b, "def %s : Option %s := none -- ANCHOR NOT FOUND\n", k, typ)
 	}
 	b.WriteString("\nend Dhcp.Gen\n")
